@@ -102,7 +102,7 @@ pub fn verif_no_element<T>(v: &Vec<T>) -> (r: Option<&T>) ensures r is None { No
 pub open spec fn newest(rec: Seq<(Tombstone, usize)>, i: int) -> bool {
     0 <= i < rec.len() && forall|j: int| 0 <= j < rec.len() ==> (#[trigger] rec[j]).0.sequence <= rec[i].0.sequence
 }
-//@region foyer-storage/src/engine/block/tombstone.rs :: impl~^impl TombstoneLog$/fn open name=open_latest_offset start=/let latest_tombstone_offset = recovered/ stmts=1 rules=drop-tracing,iter-reduce,option-map
+//@region foyer-storage/src/engine/block/tombstone.rs :: impl~^impl TombstoneLog$/fn open name=open_latest_offset start=/let latest_tombstone_offset = / stmts=1 rules=drop-tracing,iter-reduce,option-map
 //@head
 fn open_latest_offset(recovered: &Vec<(Tombstone, usize)>) -> (r: usize)
     ensures
